@@ -4,7 +4,7 @@ INTERFERENCE projection: every lock acquisition / DashMap operation first lets t
 obligations are stated: exactly one statistics counter is bumped by exactly one per lookup, and the lookup cannot panic."""
 from extract.rules import R, R4, R5, R1_TYPES
 from contracts.units.engine_common import COMMON
-from contracts.units.global_cache import UTILS_FNS
+from contracts.units.global_cache import UTILS_FNS, SCORE_STUBS
 from contracts.units import async_cache as AC
 
 G = 'cachelito-core/src/global_cache.rs'
@@ -16,14 +16,44 @@ ONE = ('one_counter_per_lookup_under_interference', ['C15'],
 
 UNIT = dict(
     name='interference',
-    items=COMMON + UTILS_FNS + [AC.SPEC_MIN,
+    prelude=['prelude.rs', 'prelude_float.rs'],
+    items=COMMON + UTILS_FNS + SCORE_STUBS + [AC.SPEC_MIN,
         dict(kind='struct', file=G, name='GlobalCache', rules=R1_TYPES),
         dict(kind='fn', file=G, impl=r"^impl<R: Clone \+ 'static> GlobalCache<R>$", name='get', label='GlobalCache::get[interference]', engine='GlobalCache',
              interference=True, ret='res', ensures=[ONE]),
         dict(kind='fn', file=G, impl=r"^impl<R: Clone \+ 'static> GlobalCache<R>$", name='increment_frequency', label='GlobalCache::increment_frequency[interference]',
              engine='GlobalCache', interference=True, ensures=[('stats_frame', ['C15'], 'final(self).stats == old(self).stats')]),
+        # panic freedom and termination of the store path under interference (C16): no functional postconditions are claimed
+        dict(kind='fn', file=G, impl=r"^impl<R: Clone \+ 'static> GlobalCache<R>$", name='handle_entry_limit_eviction', label='GlobalCache::handle_entry_limit_eviction[interference]',
+             engine='GlobalCache', split_self=True, interference=True, rules=R4 + R5 + R1_TYPES, props=['C16'],
+             requires=[('tlru_cfg', 'policy is TLRU ==> tlru_cfg_ok(ttl, frequency_weight)')],
+             loops={0: dict(decreases='o@.len()')}),
+        dict(kind='fn', file=G, impl=r"^impl<R: Clone \+ 'static> GlobalCache<R>$", name='insert', label='GlobalCache::insert[interference]', engine='GlobalCache',
+             interference=True, rules=R4, props=['C16'], requires=[('tlru_cfg', 'old(self).policy is TLRU ==> tlru_cfg_ok(old(self).ttl, old(self).frequency_weight)')]),
         dict(kind='struct', file=A, name='AsyncGlobalCache', rules=R1_TYPES + AC.LIFETIME),
+        dict(kind='fn', file=G, impl=r"MemoryEstimator> GlobalCache<R>$", impl_rules=[R('R0.crate_path', r'\bcrate :: MemoryEstimator\b', 'MemoryEstimator', 'crate:: path prefix')],
+             name='insert_with_memory', label='GlobalCache::insert_with_memory[interference]', engine='GlobalCache', interference=True, rules=R4 + R5, props=['C16'],
+             requires=[('tlru_cfg', 'old(self).policy is TLRU ==> tlru_cfg_ok(old(self).ttl, old(self).frequency_weight)')],
+             loops={0: dict(invariant=[('cfg', 'self.policy == old(self).policy && self.ttl == old(self).ttl && self.frequency_weight == old(self).frequency_weight && self.limit == old(self).limit && (self.policy is TLRU ==> tlru_cfg_ok(self.ttl, self.frequency_weight))')], decreases='o@.len()'),
+                    1: dict(invariant_except_break=[('flag', '!successfully_evicted && o@.len() <= o_len0')], ensures=[('popped', 'successfully_evicted ==> o@.len() < o_len0')], decreases='o@.len()')},
+             hints=[(('before_loop', 1), 'len0', 'let ghost o_len0 = o@.len();')]),
         dict(kind='fn', file=A, impl=AC.IMPL, name='get', label='AsyncGlobalCache::get[interference]', engine='AsyncGlobalCache', interference=True, ret='res',
              rules=R4 + R5 + R1_TYPES, impl_rules=AC.LIFETIME, ensures=[ONE]),
+        dict(kind='fn', file=A, impl=AC.IMPL, name='is_already_key_inserted', label='AsyncGlobalCache::is_already_key_inserted[interference]', engine='AsyncGlobalCache',
+             split_self=True, interference=True, rules=R4 + R1_TYPES, impl_rules=AC.LIFETIME, props=['C16']),
+        dict(kind='fn', file=A, impl=AC.IMPL, name='find_min_frequency_key', label='AsyncGlobalCache::find_min_frequency_key[interference]', engine='AsyncGlobalCache',
+             split_self=True, interference=True, rules=R1_TYPES, impl_rules=AC.LIFETIME, props=['C16'], ret='res',
+             ensures=[('result_from_queue', ['C16'], 'res is Some ==> order@.contains(res->Some_0)')],
+             loops={0: dict(iter='it', invariant=[('seen', 'min_freq_key is Some ==> order@.contains(min_freq_key->Some_0)')])}),
+        dict(kind='fn', file=A, impl=AC.IMPL, name='find_arc_eviction_key', label='AsyncGlobalCache::find_arc_eviction_key[interference]', engine='AsyncGlobalCache',
+             split_self=True, stub=True, rules=R1_TYPES, impl_rules=AC.LIFETIME, ret='res', ensures=[('result_from_queue', ['C16'], 'res is Some ==> order@.contains(res->Some_0)')]),
+        dict(kind='fn', file=A, impl=AC.IMPL, name='find_tlru_eviction_key', label='AsyncGlobalCache::find_tlru_eviction_key[interference]', engine='AsyncGlobalCache',
+             split_self=True, stub=True, rules=R1_TYPES, impl_rules=AC.LIFETIME, ret='res', ensures=[('result_from_queue', ['C16'], 'res is Some ==> order@.contains(res->Some_0)')]),
+        dict(kind='fn', file=A, impl=AC.IMPL, name='handle_entry_limit_eviction', label='AsyncGlobalCache::handle_entry_limit_eviction[interference]', engine='AsyncGlobalCache',
+             split_self=True, interference=True, rules=R4 + R5 + R1_TYPES, impl_rules=AC.LIFETIME, props=['C16'],
+             ensures=[('queue_never_grows', ['C16'], 'final(order)@.len() <= old(order)@.len()')],
+             loops={0: dict(invariant=[('shrinks', 'order@.len() <= old(order)@.len()')], decreases='order@.len()')}),
+        dict(kind='fn', file=A, impl=AC.IMPL, name='insert', label='AsyncGlobalCache::insert[interference]', engine='AsyncGlobalCache', interference=True,
+             rules=R4 + R5 + R1_TYPES, impl_rules=AC.LIFETIME, props=['C16']),
     ],
 )
